@@ -49,7 +49,7 @@ Section RC.
 
   Lemma nsum_R_acc l : forall acc, fold_left (nadd N) l acc = acc + rsum l.
   Proof.
-    induction l as [|x r IH]; intros acc; cbn [fold_left rsum fold_right].
+    unfold rsum. induction l as [|x r IH]; intros acc; cbn [fold_left fold_right].
     - lra.
     - rewrite IH. num_R. lra.
   Qed.
@@ -79,9 +79,10 @@ Section RC.
   Proof.
     unfold zerosig_body. destruct cache as [g|]; [|reflexivity].
     cbn [zs_cache_none]. rewrite K_zs_nsgrad2, K_zs_N, K_zs_Nprime, nsum_R, !ofZ_R.
-    unfold sumsq. f_equal. f_equal.
-    - f_equal. f_equal. clear. induction g as [|x r IH]; cbn [map]; [reflexivity|]. rewrite K_zs_nsgrad2_term, IH. reflexivity.
-    - f_equal. ring.
+    assert (Hm : map (zs_nsgrad2_term N) g = map (fun x => x * x) g).
+    { clear. induction g as [|x r IH]; cbn [map]; [reflexivity|]. rewrite K_zs_nsgrad2_term, IH. reflexivity. }
+    rewrite Hm. unfold sumsq.
+    replace (IZR nsel + IZR npure - IZR nsel) with (IZR npure) by ring. reflexivity.
   Qed.
 
   Lemma sumsq_nonneg g : 0 <= sumsq g.
@@ -189,9 +190,9 @@ Section RC.
     multi_body N [f1; f2] [c1; c2] ns i = Ok (b1 * (f1 * f1) + b2 * (f2 * f2)).
   Proof.
     intros S1 S2 B1 B2. unfold multi_body. cbn [multi_terms]. unfold call_kw.
-    rewrite (real_sigs_accept_current_call _ S1), (real_sigs_accept_current_call _ S2).
-    rewrite !K_md_nsf, K_md_call_pidx, B1, B2. cbn [bind]. rewrite nsum_R, !K_md_term.
-    cbn [rsum fold_right]. f_equal. ring.
+    rewrite (real_sigs_accept_current_call _ S1), K_md_nsf, K_md_call_pidx, B1. cbn [bind].
+    rewrite (real_sigs_accept_current_call _ S2), K_md_nsf, B2. cbn [bind].
+    rewrite nsum_R, !K_md_term. cbn [rsum fold_right]. f_equal. unfold rsum. cbn [fold_right]. ring.
   Qed.
 
   Lemma multi_length_errors ns i f c cs fs :
@@ -200,20 +201,20 @@ Section RC.
 
   (* NsProfile: the constructor admits exactly one floating parameter, so the
      ns index of every fit result is 0; any other index is rejected *)
-  Lemma nsprofile_guard inner ns i : i <> 0%Z -> nsprofile_body N inner ns i = Err ValueError.
+  Lemma nsprofile_guard (inner : callee R) (ns : R) i : i <> 0%Z -> nsprofile_body inner ns i = Err ValueError.
   Proof. intros H. unfold nsprofile_body. apply K_np_guard in H. rewrite H. reflexivity. Qed.
 
-  Lemma nsprofile_zero inner ns :
-    In (c_sig inner) real_sigs -> nsprofile_body N inner ns 0%Z = c_body inner ns 0%Z.
+  Lemma nsprofile_zero (inner : callee R) (ns : R) :
+    In (c_sig inner) real_sigs -> nsprofile_body inner ns 0%Z = c_body inner ns 0%Z.
   Proof.
     intros HS. unfold nsprofile_body.
     assert (H : np_guard 0 = false) by reflexivity. rewrite H.
     unfold call_kw. rewrite (real_sigs_accept_current_call _ HS). reflexivity.
   Qed.
 
-  Lemma taylor_computable_nsprofile nm ll x a inner :
+  Lemma taylor_computable_nsprofile nm ll x a (inner : callee R) :
     In (c_sig inner) real_sigs -> (forall ns, exists b, c_body inner ns 0%Z = Ok b) ->
-    exists ts, taylor N [nm] nm ll [x] (nsprofile_callee N inner) [a] = Ok ts.
+    exists ts, taylor N [nm] nm ll [x] (nsprofile_callee inner) [a] = Ok ts.
   Proof.
     intros HS HB. rewrite top_ts_taylor. unfold get_gflp_idx. cbn [find_idx]. rewrite Z.eqb_refl. cbn [bind].
     change (py_get [x] 0%Z) with (Ok x). cbn [bind].
@@ -225,10 +226,10 @@ Section RC.
     rewrite Hb, (nsprofile_zero inner x HS). destruct (HB x) as [b ->]. cbn [bind]. eauto.
   Qed.
 
-  Lemma taylor_nsprofile_other_index floating nm ll fpv grads inner i a :
+  Lemma taylor_nsprofile_other_index floating nm ll fpv grads (inner : callee R) i a :
     get_gflp_idx floating nm = Ok i -> i <> 0%Z -> py_get fpv i = Ok 0 -> py_get grads i = Ok a ->
     zlen fpv = zlen floating ->
-    taylor N floating nm ll fpv (nsprofile_callee N inner) grads = Err ValueError.
+    taylor N floating nm ll fpv (nsprofile_callee inner) grads = Err ValueError.
   Proof.
     intros Hi Hi0 Hns Ha HL. rewrite top_ts_taylor, Hi. cbn [bind]. rewrite Hns. cbn [bind].
     destruct (Req_EM_T 0 0) as [_|E]; [|contradiction E; reflexivity].
